@@ -28,6 +28,9 @@ Clauses ==
             [] cmd = "archive" -> ArchiveClauses(B, A, E.exit, Sel(E.sel), SetOf(E.arows), SetOf(E.members))
             [] cmd = "restore" -> RestoreClauses(B, A, E.exit, E.crashed, [rows |-> SetOf(E.arch.rows), members |-> SetOf(E.arch.members), defect |-> E.arch.defect])
             [] cmd = "roundtrip" -> RoundTripClauses(B, A, Sel(E.sel))
+            [] cmd = "cwdpair" -> CwdClauses([exit |-> E.refExit, after |-> St(E.refAfter), locs |-> SetOf(E.refLocs)],
+                                             [exit |-> E.exit, after |-> A, locs |-> SetOf(E.locs)])
+            [] cmd = "nested"  -> NestedClauses(B, A)
             [] cmd = "clean"   -> CleanClauses(B, A)
             [] cmd = "where"   -> WhereClauses(B, A)
             [] OTHER -> {}
